@@ -1,0 +1,1 @@
+//! Verification facade (cfg-gated): header-ex client handler family.  See `crate::verif`.
